@@ -1035,14 +1035,14 @@ package mcp
 // ---------------------------------------------------------------------------------------------
 
 // streamableServerConn.mu guards the routing tables of one session.
-//@ monitor cmu lock streamableServerConn.mu as c [C10, C08]
+//@ monitor cmu lock streamableServerConn.mu as c [C10, C08, C03]
 //@   protects fields(streamableServerConn.streams), fields(streamableServerConn.requestStreams), fields(streamableServerConn.isDone), maps("map[string]*stream"), maps("map[jsonrpc.ID]string")
 //@   unpublished (*StreamableServerTransport).Connect
 //@   invariant @tables-exist c.streams != nil && c.requestStreams != nil
 //@   transition @routes-are-never-overwritten forall id jsonrpc2.ID :: {rawGet(c.requestStreams, id)} old(c.requestStreams) == c.requestStreams && old(inDom(c.requestStreams, id)) && inDom(c.requestStreams, id) ==> rawGet(c.requestStreams, id) == old(rawGet(c.requestStreams, id))
 
 // stream.mu guards the delivery state of one logical stream.
-//@ monitor stmu lock stream.mu as s [C10, C08]
+//@ monitor stmu lock stream.mu as s [C10, C08, C03]
 //@   protects fields(stream.w), fields(stream.done), fields(stream.lastIdx), fields(stream.requests), fields(stream.pendingJSONMessages), fields(stream.protocolVersion), maps("map[jsonrpc.ID]struct{}")
 //@   unpublished (*streamableServerConn).servePOST
 //@   assume s.lastIdx < 4611686018427387904   // fewer than 2^62 events on one stream
@@ -1111,7 +1111,7 @@ package mcp
 // refused with 409 and nothing is replayed; replayed events are numbered consecutively from the index after the
 // resume point; a stream that is handed back is attached to this exchange with a fresh done channel and its event
 // index set to the last replayed one.
-//@ func (*streamableServerConn).acquireStream [C08, C10]
+//@ func (*streamableServerConn).acquireStream [C08, C10, C03]
 //@   track After as replaySource
 //@   track writeEvent as emit
 //@   track formatEventID as eventID
@@ -1138,7 +1138,7 @@ package mcp
 //  - (C08) with an event store and a pre-2026-07-28 peer the bytes are appended to the store first and then handed
 //    to deliverLocked - the same bytes, both inside the stream's critical section - with the event id made from the
 //    stream id and the stream's next index; a stream whose last response went out is removed from the table.
-//@ func (*streamableServerConn).Write [C10, C08, C02]
+//@ func (*streamableServerConn).Write [C10, C08, C02, C03]
 //@   track deliverLocked as deliver
 //@   track Append as store
 //@   track formatEventID as eventID
